@@ -1,5 +1,7 @@
 import MidnightZK.Model.Common
 import MidnightZK.Model.C03.Binding
+import MidnightZK.Model.C03.Absorb
+import MidnightZK.Model.C03.VK
 import MidnightZK.Model.C01.Parse
 /-! Line-protocol handler of property C03. -/
 namespace MidnightZK.C03.Driver
@@ -13,7 +15,41 @@ def hexBytes? (s : String) : Option (List Nat) :=
       let r ← go t
       pure (v :: r)
     | _ => none
-  go s.toList
+  if s = "-" then some [] else go s.toList
+
+def bytesHex (bs : List Nat) : String :=
+  if bs.isEmpty then "-" else String.ofList (bs.flatMap fun b => [hexDigit (b / 16), hexDigit (b % 16)])
+
+/-- `none` = the empty list; otherwise `sep`-separated items. -/
+def listOf? {α} (sep : String) (f : String → Option α) (s : String) : Option (List α) :=
+  if s = "none" then some [] else (s.splitOn sep).mapM f
+
+/-- Compressed point given as 96 hex digits. -/
+def pointOfHex? (s : String) : Option Pt := do
+  let bs ← hexBytes? s
+  g1Dec bs
+
+/-- Affine point given as `x:y` (hex numbers) or `inf`. -/
+def pointOfCoords? (s : String) : Option Pt :=
+  if s = "inf" then some .inf else
+  match s.splitOn ":" with
+  | [x, y] => do
+    let x ← parseNat? x
+    let y ← parseNat? y
+    pure (.aff x y)
+  | _ => none
+
+def parseStmt? (ws : List String) : Option Stmt := do
+  let vk ← parseNat? (← C01.Parse.kv ws "vk")
+  let nc ← parseNat? (← C01.Parse.kv ws "nc")
+  -- one `;`-separated entry per proof (at least one proof); `none` = no column in that proof
+  let coms ← ((← C01.Parse.kv ws "coms").splitOn ";").mapM (listOf? "," pointOfHex?)
+  let cols ← ((← C01.Parse.kv ws "cols").splitOn ";").mapM (listOf? "|" parseNatList?)
+  pure { vkRepr := vk, nCommitted := nc, coms := coms, cols := cols }
+
+def fmtPoint : Pt → String
+  | .inf => "inf"
+  | .aff x y => s!"some {toHex x} {toHex y}"
 
 def answer (line : String) : String :=
   match words line with
@@ -36,6 +72,54 @@ def answer (line : String) : String :=
       | some v => s!"some {toHex v}"
       | none => "none"
     | none => "bad-op"
+  | ["point", hex] =>
+    match hexBytes? hex with
+    | some bs =>
+      match g1Dec bs with
+      | some p => fmtPoint p
+      | none => "none"
+    | none => "bad-op"
+  | ["pointinput", pt] =>
+    -- Poseidon `to_input` and BLAKE2b `to_input` of a point given by its affine coordinates
+    match pointOfCoords? pt with
+    | some p => s!"{fmtHexList (pointLimbs p)} {bytesHex (C16.encodeG1c p)}"
+    | none => "bad-op"
+  | "absorbed" :: hash :: rest =>
+    match C01.Parse.parseShape? rest, parseStmt? rest, (C01.Parse.kv rest "proof").bind hexBytes? with
+    | some sh, some st, some proof =>
+      let evs := verifierSchedule sh st.cfg
+      match parseProof evs proof with
+      | none => "reject"
+      | some pv =>
+        match assemble st evs pv with
+        | none => "bad-statement"
+        | some vals =>
+          if absorbVals st evs ≠ some (stmtVals st) ∨ st.coms.length ≠ st.cols.length then "bad-statement-order"
+          else if hash = "blake" then
+            s!"{bytesHex (blakeStream evs vals)} sq={fmtNatList (blakeSqueezeOffsets evs vals 0)}"
+          else if hash = "poseidon" then
+            "|".intercalate ((poseidonBlocks evs vals [] 0).map fmtHexList)
+          else "bad-op"
+    | _, _, _ => "bad-op"
+  | "parse" :: rest =>
+    match C01.Parse.parseShape? rest, C01.Parse.parseCfg? rest, (C01.Parse.kv rest "proof").bind hexBytes? with
+    | some sh, some cfg, some proof =>
+      let tys := elemTys (verifierSchedule sh cfg)
+      match firstBadElem g1Dec tys proof 0 with
+      | some i => s!"reject {i}"
+      | none =>
+        let used := (tys.map elemSize).foldl (· + ·) 0
+        if proof.length = used then s!"ok {tys.length}" else s!"trailing {proof.length - used}"
+    | _, _, _ => "bad-op"
+  | "vkinput" :: rest =>
+    match (C01.Parse.kv rest "k").bind parseNat?,
+          (C01.Parse.kv rest "fixed").bind (listOf? "," pointOfCoords?),
+          (C01.Parse.kv rest "perm").bind (listOf? "," pointOfCoords?),
+          (C01.Parse.kv rest "domain").bind hexBytes?,
+          (C01.Parse.kv rest "cs").bind hexBytes? with
+    | some k, some fixed, some perm, some d, some c =>
+      bytesHex (vkHashInput { k := k, fixed := fixed, perm := perm, domainDbg := d, csDbg := c })
+    | _, _, _, _, _ => "bad-op"
   | _ => "bad-op"
 
 end MidnightZK.C03.Driver
